@@ -27,7 +27,7 @@ rm -f $wt/$demo
 mods="."
 if git -C $wt diff --name-only | grep -q '^pkg/adapters/'; then mods=$(git -C $wt diff --name-only | grep '^pkg/adapters/' | cut -d/ -f1-3 | sort -u); fi
 r2=0
-for m in $mods; do ( cd $wt/$m && go test -mod=mod -vet=off -count=1 ./... ) > /tmp/confirm-$id.suite.log 2>&1; grep -E "^(FAIL|--- FAIL)" /tmp/confirm-$id.suite.log | grep -v "TestHotSpotParamRuleJsonArrayParser\|ext/datasource\s" > /tmp/confirm-$id.fails; [ -s /tmp/confirm-$id.fails ] && r2=1; done
+for m in $mods; do ( cd $wt/$m && go test -mod=mod -vet=off -count=1 ./... ) > /tmp/confirm-$id.suite.log 2>&1; grep -E "^(FAIL[[:space:]]+[^[:space:]]|[[:space:]]*--- FAIL)" /tmp/confirm-$id.suite.log | grep -v "TestHotSpotParamRuleJsonArrayParser\|sentinel-golang/ext/datasource[[:space:]]" > /tmp/confirm-$id.fails; [ -s /tmp/confirm-$id.fails ] && r2=1; done
 echo "CONFIRM $id: demo_without_patch_exit=$r0 demo_with_patch_exit=$r1 suite_fail=$r2"
 [ $r2 = 1 ] && cat /tmp/confirm-$id.fails | head
 [ $r0 = 0 ] && [ $r1 != 0 ] && [ $r2 = 0 ] && echo "CONFIRMED $id" || echo "NOT-CONFIRMED $id"
